@@ -50,6 +50,7 @@ type kase struct {
 	Opt     optSpec  `json:"opt"`
 	Probes  []string `json:"probes,omitempty"` // host-side references that must keep working
 	Sig     string   `json:"sig"`
+	Stdlib  bool     `json:"stdlib,omitempty"`   // the sessions run with the standard library loaded
 	AltFrom string   `json:"alt_from,omitempty"` // generated-name family: name to neutralise for the triage re-run
 	AltTo   string   `json:"alt_to,omitempty"`
 }
@@ -176,8 +177,8 @@ func fileName(i int) string { return fmt.Sprintf("f%d.lisp", i) }
 
 // runSession loads the files in order into one fresh runtime (as `elps run
 // f0.lisp f1.lisp` does), then evaluates the host probes.
-func runSession(files []string, probes []string) observation {
-	env := el.MustEnv(el.Opts{Configs: runConfigs})
+func runSession(files []string, probes []string, stdlib bool) observation {
+	env := el.MustEnv(el.Opts{Configs: runConfigs, Stdlib: stdlib})
 	var tr strings.Builder
 	var last *lisp.LVal
 	for i, f := range files {
@@ -296,7 +297,7 @@ type finding struct {
 
 // checkOption runs every check of one (session, option) and returns the
 // findings (empty = all checks passed) and the minified texts.
-func checkOption(files []string, o optSpec, probes []string, orig *observation, cache map[string]observation) ([]finding, *minified) {
+func checkOption(files []string, o optSpec, probes []string, stdlib bool, orig *observation, cache map[string]observation) ([]finding, *minified) {
 	var fs []finding
 	m1, err := minifyOnce(files, o)
 	if err != nil {
@@ -415,7 +416,7 @@ func checkOption(files []string, o optSpec, probes []string, orig *observation, 
 		key := strings.Join(m1.outs, "\x00") + "\x01" + strings.Join(probes, "\x00")
 		got, ok := cache[key]
 		if !ok {
-			got = runSession(m1.outs, probes)
+			got = runSession(m1.outs, probes, stdlib)
 			cache[key] = got
 		}
 		want := orig.restrict(probes)
@@ -444,8 +445,8 @@ func compactJSON(v any) string {
 
 // checkCase is the straight-line execution of one case (used by run and replay).
 func checkCase(k kase) []finding {
-	orig := runSession(k.Files, k.Probes)
-	fs, _ := checkOption(k.Files, k.Opt, k.Probes, &orig, map[string]observation{})
+	orig := runSession(k.Files, k.Probes, k.Stdlib)
+	fs, _ := checkOption(k.Files, k.Opt, k.Probes, k.Stdlib, &orig, map[string]observation{})
 	return fs
 }
 
